@@ -5,10 +5,15 @@ assignments), spec/MeshGen.tla (two-cell gluings as base meshes), harness/c12_pa
 Two-layer (recursive) partitioning - PatchHaloSplitter / PatchMeshPartSplitter, the route of PartiDomainControl with more
 than one layer: spec/Partition2L.tla (+ Partition2LCheck.tla, PartitionGen2L.tla: TLC enumerates all two-level set
 partitions), harness/c12_twolayer.cpp.
+Decompositions into MANY small patches (64..288 patches, each far below 1/32 of the cells, irregular shapes):
+spec/PartitionGenMany.tla (TLC enumerates sheared / staircase block partitions, all balanced splittings of 8-cell tiles,
+runs, pseudo-random and Voronoi assignments), compact dumps of harness/c12_parti.cpp judged by spec/PartitionManyCheck.tla
+(level 0 by Partition.tla verbatim, refined levels through an entity table), lib/c12_many.py.
 """
 import glob, json, os, random, re, shutil, time
 import concurrent.futures as cf
-import vlib, vmeshlib
+import threading
+import vlib, vmeshlib, c12_many
 
 LEVEL = "model_checking"
 MESHDIR = os.path.join(vlib.REPO, "data", "meshes")
@@ -91,8 +96,15 @@ def _run(chk, tier, rng, binary, binary2, gdir):
             f.write("SPECIFICATION Spec\nCONSTANTS Fam = \"%s\" Dim = %d Mode = \"%s\" PartLevel = 0\n"
                     "INVARIANTS AllPositive Conforming GluedOnFacet Emit\nCHECK_DEADLOCK FALSE\n" % (fam, dim, mode))
         jobs.append(("MeshGen", cfg, ("mesh", fam, dim, mode)))
-    assigns, genmeshes, twolevel = {}, [], {}
-    with cf.ThreadPoolExecutor(max_workers=6) as ex:
+    # decompositions into many small patches: one TLC run of PartitionGenMany per mesh
+    manymeshes = [m for m in c12_many.meshes(MESHDIR, {f["name"]: f["cells"] for f in files}) if thorough or m["quick"]]
+    for k, m in enumerate(manymeshes):
+        cfg = "gen_c12_%d_g%d.cfg" % (os.getpid(), k)
+        with open(os.path.join(vlib.SPEC, cfg), "w") as f:
+            f.write(c12_many.gen_cfg(m, vlib.seed()))
+        jobs.append(("PartitionGenMany", cfg, ("many", k)))
+    assigns, genmeshes, twolevel, manygen = {}, [], {}, {}
+    with cf.ThreadPoolExecutor(max_workers=8) as ex:
         futs = [(ex.submit(vlib.tlc, j[0], j[1], timeout=900, xmx="2g"), j) for j in jobs]
         for fu, (mod, cfg, what) in futs:
             r = fu.result()
@@ -104,6 +116,8 @@ def _run(chk, tier, rng, binary, binary2, gdir):
                 assigns[what[1]] = [p["ranks"] for p in r.printed]
             elif what[0] == "twolevel":
                 twolevel[what[1]] = [p["parents"] for p in r.printed]
+            elif what[0] == "many":
+                manygen[what[1]] = r.printed
             else:
                 for i, c in enumerate(r.printed):
                     genmeshes.append(("gen:%s" % what[3], what[1], what[2], c["src"], 2 if what[3] == "pair" else 3, i))
@@ -191,6 +205,20 @@ def _run(chk, tier, rng, binary, binary2, gdir):
                 {"kind": "explicit", "ranks": [[c for c in range(nc) if asg[c] == r] for r in range(n)]}, 2 if dim == 2 else 1, maxcells)
     chk.extra["sampled_cases"] = len(cases) - nexh
 
+    # ---- 2a. many small patches: configurations enumerated by TLC (spec/PartitionGenMany.tla), sampled per tier ----
+    casesm = []
+    many_enum = {}
+    for k, m in enumerate(manymeshes):
+        pr = manygen.get(k, [])
+        many_enum[m["name"]] = len(pr)
+        for p in c12_many.select(m, pr, tier, rng):
+            cid = "m%d" % len(casesm)
+            casesm.append({"id": cid, "srcname": m["name"], "fam": m["fam"], "dim": m["dim"], "src": m["src"], "parti": {"kind": "explicit", "ranks": c12_many.ranks_of(p)},
+                           "nref": m["nref"][1 if thorough else 0], "maxcells": 400000, "fileparts": m["fileparts"], "bndpart": 1, "out": os.path.join(gdir, cid + ".json"),
+                           "compact": 1, "prerefine": m["pre"], "gen": p["gen"], "gen_maxpatch": p["maxpatch"], "gen_ncells": p["ncells"]})
+    chk.extra["many_patch_configurations_enumerated"] = many_enum
+    chk.extra["many_patch_cases"] = len(casesm)
+
     # ---- 2b. two-layer partitioning: every small mesh x every two-level set partition (both rank orders) ----
     cases2 = []
 
@@ -223,9 +251,18 @@ def _run(chk, tier, rng, binary, binary2, gdir):
     chk.extra["two_layer_sampled_cases"] = len(cases2) - nexh2
 
     # ---- 3. the real code ----
-    res = vlib.run_cases(binary, cases, tmo=120, shards=8)
+    # (the many-patch cases run concurrently, a few per harness process)
+    nch = max(1, min(6, len(casesm) // 2))
+    chunks = [casesm[i::nch] for i in range(nch)]
+    with cf.ThreadPoolExecutor(max_workers=nch + 1) as ex:
+        fm = [ex.submit(vlib.run_cases, binary, ch, 600, 1) for ch in chunks if ch]
+        res = vlib.run_cases(binary, cases, tmo=120, shards=8)
+        resm = {}
+        for ch, fu in zip([ch for ch in chunks if ch], fm):
+            for c, rr in zip(ch, fu.result()):
+                resm[c["id"]] = rr
     good = []
-    for c, rr in zip(cases, res):
+    for c, rr in list(zip(cases, res)) + [(c, resm[c["id"]]) for c in casesm]:
         chk.count(c["id"], True)
         if rr.get("ok") is True and rr.get("skip"):
             chk.extra["skipped"] = chk.extra.get("skipped", 0) + 1
@@ -239,8 +276,66 @@ def _run(chk, tier, rng, binary, binary2, gdir):
         sg["exc"] = "out_of_range" if "out_of_range" in desc else ("other" if rr.get("outcome") == "exception" else "")
         chk.violation(sg, "%s (%s, %s): %s" % (c["id"], c["srcname"], json.dumps(c["parti"])[:200], desc),
                       {"kind": "case", "harness": "c12_parti", "case": slim, "result": rr})
-    vlib.log("[C12] harness done %.1fs (%d cases)" % (time.time() - chk.t0, len(cases)))
+    vlib.log("[C12] harness done %.1fs (%d + %d cases)" % (time.time() - chk.t0, len(cases), len(casesm)))
 
+    # ---- 3b. the many-patch dumps are judged by PartitionManyCheck.tla, concurrently with the stages 4 and 5 ----
+    goodm = [c for c in good if c.get("compact")]
+    good = [c for c in good if not c.get("compact")]
+    mres = {}
+
+    def judge_many():
+        try:
+            mres["out"] = c12_many.judge([{"id": c["id"], "path": c["out"], "wantlevels": c["nref"] + 1} for c in goodm], "c12m_%d" % os.getpid(),
+                                         max_procs=4 if thorough else 3)
+        except BaseException as e:          # re-raised in the main thread
+            mres["err"] = e
+    mthread = threading.Thread(target=judge_many)
+    if goodm:
+        mthread.start()
+    try:
+        _judge_rest(chk, thorough, cases, good, cases2, binary2)
+    finally:
+        if goodm:
+            mthread.join()
+    if "err" in mres:
+        raise mres["err"]
+    nsmall = pairs = ordered = single_m = mono = maps = 0
+    if goodm:
+        mverdicts, mruns = mres["out"]
+        for r, name in mruns:
+            chk.add_tlc(r, name)
+        for c in goodm:
+            v = mverdicts.get(c["id"])
+            if v is None:
+                raise vlib.MachineryError("no verdict for " + c["id"])
+            inf = v["info"]
+            nsmall += 1 if 32 * inf["maxpatch"] < inf["cells"] else 0
+            pairs += inf["pairs"]; ordered += inf["ordered"]; single_m += inf["single"]; mono += inf["mono"]; maps += inf["maps"]
+            slim = {k: c[k] for k in c if k != "out"}
+            for fl in v["fails"]:
+                sg = sig(c, fl["p"], fl["l"])
+                sg["gen"] = c["gen"]["g"]
+                chk.violation(sg, "%s (%s, %d patches by %s): %s does not hold at level %d" % (c["id"], c["srcname"], len(c["parti"]["ranks"]),
+                              json.dumps(c["gen"]), fl["p"], fl["l"]), {"kind": "case", "harness": "c12_parti", "case": slim, "verdict": v})
+        for c in goodm[:2]:
+            chk.sample({"id": c["id"], "src": c["srcname"], "generator": c["gen"], "patches": len(c["parti"]["ranks"]), "verdict": mverdicts[c["id"]]})
+        chk.extra["many_patch_max_ranks"] = max(len(c["parti"]["ranks"]) for c in goodm)
+    chk.traces += len(goodm)
+    chk.extra["many_patch_cases_with_every_patch_below_1/32_of_the_cells"] = nsmall
+    chk.extra["many_patch_neighbour_pairs"] = pairs
+    chk.extra["many_patch_halo_lists_with_2_or_more_entities_(order_clause_non-trivial)"] = ordered
+    chk.extra["many_patch_pairs_touching_in_one_vertex"] = single_m
+    chk.extra["many_patch_maps_ascending_in_base_numbering_(reported_only)"] = "%d of %d" % (mono, maps)
+    chk.rule += ("  Many small patches: TLC enumerates (spec/PartitionGenMany.tla) sheared and staircase block partitions (block sizes, shears "
+                 "and steps from small integer sets), every balanced splitting of an 8-cell tile into two 4-cell patches (35 patterns per tile shape: "
+                 "S/L/T/I shapes, disconnected pieces), runs of consecutive cells, pseudo-random and Voronoi assignments (seeded by VERIF_SEED) for "
+                 "16x16 / 24x24 quad, 6x6x6 hexa, 8x8x4 triangle, 2x2x2x24 tetrahedron meshes and refined shipped meshes (2-level numbering); "
+                 "quick runs 2-3 seeded configurations per mesh, thorough up to 36 per mesh (more meshes); each = extract_patch for all 48..288 "
+                 "ranks + 1..2 joint refinements; level 0 judged by Partition.tla verbatim, the refined levels by the same clauses through an "
+                 "entity table (spec/PartitionManyCheck.tla), incl. position-wise equality of the two halos of every neighbour pair.")
+
+
+def _judge_rest(chk, thorough, cases, good, cases2, binary2):
     # ---- 4. TLC judges (streamed) ----
     byid = {c["id"]: c for c in good}
     items = [{"id": c["id"], "path": c["out"], "weight": 3000 + os.path.getsize(c["out"]), "extra": {"wantlevels": c["nref"] + 1}} for c in good]
